@@ -7,6 +7,10 @@ def treeCfg (v2 : Bool) : Cfg :=
 
 theorem C10_on_tree_facts : Facts.codecSizeCheckOverflowSafe = true ∧ Facts.codecReadIntGuarded = true := by decide
 theorem C10_on_tree_safe (v2 : Bool) : Safe (treeCfg v2) := ⟨C10_on_tree_facts.1, C10_on_tree_facts.2⟩
+/-- what is reported as synced has been covered by an msync: the sync goroutine flushes the current segment,
+    a rollover flushes the segment it leaves (fixed D-45), and `LastOffset` is the synced offset -/
+theorem C10_on_tree_synced_is_flushed : Facts.walRolloverFlushesSegment = true ∧ Facts.walLastOffsetIsSynced = true ∧
+    Facts.walSyncCallbacksOnlyForFlushedEntries = true := by decide
 theorem C10_on_tree_header_sizes : Facts.codecV2HeaderSize = 12 ∧ Facts.codecV1HeaderSize = 4 := by decide
 
 /-- on the current tree recovery never panics, in both formats -/
